@@ -1,5 +1,19 @@
-(* C08 — property theorems (bootstrap stage; see DESIGN.md section 6). *)
-From Verif Require Import Inflate.
-Theorem C08_spec_inflater_runs : status (inflate [] [3;0]) = Done /\ out (inflate [] [3;0]) = [].
-Proof. vm_compute. split; reflexivity. Qed.
-Print Assumptions C08_spec_inflater_runs.
+(* C08 — property theorems.  Model: RModel/Containers.v (RFC 1952 / RFC 1950 framing with Go's rules, CRC-32 and Adler-32 written out) over the reference inflater; compared with fastgo's gzip/zlib Readers and with the standard library's on every run.
+   Only statements, each closed by `exact`, followed by Print Assumptions. *)
+From Verif Require Import ContainersSpec ContainersProofs InflateMono.
+Open Scope N_scope.
+
+(* any non-empty list of members written back to back: the concatenation of the payloads, all the
+   headers in order, then io.EOF *)
+Theorem C08_gz_concat : forall ms, ms <> [] -> Forall member_ok ms ->
+  gz_read true (members_bytes ms)
+    = mkgres (concat (map (fun m => snd m) ms)) CEOF [] (map (fun m => fst (fst m)) ms) false.
+Proof. exact (gz_concat inflate_mono). Qed.
+Print Assumptions C08_gz_concat.
+
+(* Multistream(false): one member, and the source is left exactly after its trailer whatever
+   follows (the next member, or data that is not gzip) *)
+Theorem C08_gz_member_by_member : forall m rest, member_ok m ->
+  gz_read false (member_bytes m ++ rest) = mkgres (snd m) CEOF rest [fst (fst m)] false.
+Proof. exact (gz_member_by_member inflate_mono). Qed.
+Print Assumptions C08_gz_member_by_member.
